@@ -95,3 +95,29 @@ def cargo_harness(name):
             raise BuildError("cargo build %s (%s)" % (name, prof), out)
         exes[prof] = os.path.join(BUILD, "h" + name, prof, "h" + name)
     return exes
+
+
+def rs2v():
+    d = os.path.join(VERIF, "rs2v")
+    lockf, seed = os.path.join(d, "Cargo.lock"), os.path.join(d, "Cargo.lock.seed")
+    if not os.path.exists(lockf) and os.path.exists(seed):
+        sh(["cp", seed, lockf])
+    rc, out = sh(["cargo", "build", "--offline", "--release", "-q"], cwd=d)
+    if rc != 0:
+        raise BuildError("cargo build rs2v", out)
+    return os.path.join(BUILD, "rs2v", "release", "rs2v")
+
+
+def source_facts():
+    """regenerate coq/Gen/SourceFacts.v from /repo's working tree (tie T1 for the fact-based properties)"""
+    exe = rs2v()
+    os.makedirs(os.path.join(BUILD, "tmp"), exist_ok=True)
+    meta = os.path.join(BUILD, "tmp", "cargo-metadata.json")
+    rc, out = sh("cargo metadata --offline --format-version 1 > %s" % meta, cwd=REPO)
+    if rc != 0:
+        raise BuildError("cargo metadata", out)
+    os.makedirs(os.path.join(COQ, "Gen"), exist_ok=True)
+    rc, out = sh([exe, "facts", REPO, meta, os.path.join(COQ, "Gen", "SourceFacts.v")])
+    if rc != 0:
+        raise BuildError("rs2v facts (the extractor could not process the source)", out)
+    return os.path.join(COQ, "Gen", "SourceFacts.v")
